@@ -480,7 +480,7 @@ class C01(Check):
     rule = ('cases = operation histories on two Map or two MultiMap objects: boundary (empty, single entry, key 0, negatives, '
             'equal keys), build profiles (ascending/descending/zigzag/random/internal two-child removals/hinted/bulk+copy/equal-key '
             'runs) over key ranges 4..200 and lengths 3..300, a small exhaustive scope of {reset op} x {hint position} x {key vs old '
-            'extremes} (416 cases), and fill-then-drain-one-side histories up to 60 (quick) / 255 (thorough) entries; a case is '
+            'extremes} (416 cases), and fill-then-drain histories (one side, all but powers of two, repeated median/quartile removals) up to 60 (quick) / 255 (thorough) entries; oracles: reference results line by line (hinted MultiMap positions checked relationally), comparison count and real tree depth against 2*floor(1.4405*log2(n+2)); a case is '
             'non-trivial when it has at least 3 mutating operations and reaches at least 3 entries; distinct = distinct op text')
     assumptions = ['keys and values are int (the code is a template; the harness instantiates a comparison-counting int key)',
                    'the allocator succeeds (no out-of-memory path is modelled)',
